@@ -241,8 +241,8 @@ func c04Run(s *Shard) {
 			for mi, method := range utilMethods {
 				for pki, pk := range perms {
 					for pci, pc := range perms {
-						if quick(s) && n == 4 && !(pki == 0 || pci == 0 || pci == pki || pci == len(perms)-1) {
-							continue // n=4 quick: every permutation of each listing, combined with 3 permutations of the other
+						if ((quick(s) && n == 4) || n >= 5) && !(pki == 0 || pci == 0 || pci == pki || pci == len(perms)-1) {
+							continue // n=4 quick / n>=5: every permutation of each listing, combined with 3 permutations of the other
 						}
 						for _, extra := range []bool{false, true} {
 							if extra && (mi != 0 || n > 4) && quick(s) {
